@@ -114,7 +114,7 @@ std::string doStep(S &s, const json &st, long k) {
         std::string f = a.substr(4);
         return outcome([&] {
             nix::Dimension d = s.a.getDimension((nix::ndsize_t) i);
-            if (f == "labels") { auto sd = d.asSetDimension(); if (x == 0) sd.labels(nix::none); else sd.labels(labelsOf(x)); }
+            if (f == "labels") { auto sd = d.asSetDimension(); if (x == 0) { if (k % 2) sd.labels(std::vector<std::string>{}); else sd.labels(nix::none); } else sd.labels(labelsOf(x)); }
             else if (f == "interval") d.asSampledDimension().samplingInterval(intervalOf(x));
             else if (f == "offset") { auto sd = d.asSampledDimension(); if (x == 0) sd.offset(nix::none); else sd.offset(offsetOf(x)); }
             else if (f == "ticks") d.asRangeDimension().ticks(ticksOf(x));
